@@ -22,21 +22,22 @@ import (
 )
 
 type verifEngine struct {
-	slock   *SLock
-	db      *LockDB
-	aofch   *AofChannel
-	conns   map[int]*MemWaiterServerProtocol
-	out     *bufio.Writer
-	acks    []*Lock
-	ackIds  [][3]uint64 // AofIndex, AofOffset, CommandTime of each registration
-	ackdb   *ReplicationAckDB
-	tq, eq  []*LockQueue
-	stopped bool
-	recycle bool
-	threads []*vthread
-	cur     *vthread
-	forced  bool
-	quiet   bool
+	slock             *SLock
+	db                *LockDB
+	aofch             *AofChannel
+	conns             map[int]*MemWaiterServerProtocol
+	out               *bufio.Writer
+	acks              []*Lock
+	ackIds            [][3]uint64 // AofIndex, AofOffset, CommandTime of each registration
+	ackdb             *ReplicationAckDB
+	unlockSeq         uint32
+	tq, eq            []*LockQueue
+	stopped           bool
+	recycle           bool
+	threads           []*vthread
+	cur               *vthread
+	forced            bool
+	quiet             bool
 	bulkOk, bulkOther int
 }
 
@@ -103,6 +104,7 @@ func (e *verifEngine) newDB(t0 int64, aoftime uint8) {
 	e.conns = map[int]*MemWaiterServerProtocol{}
 	e.acks = nil
 	e.ackIds = nil
+	e.unlockSeq = 0
 	e.ackdb = NewReplicationAckDB(e.slock.replicationManager)
 	e.ackdb.ackCount = 1
 	e.tq = make([]*LockQueue, 5)
@@ -148,6 +150,19 @@ func (e *verifEngine) conn(id int) *MemWaiterServerProtocol {
 	return c
 }
 
+// what ReplicationManager.PushLock (server/replication.go) does with a record before it goes to the ring buffer:
+// the same condition, the same two calls into the REAL ReplicationAckDB
+func (e *verifEngine) pushLockAckPart(a *AofLock) {
+	if a.AofFlag&AOF_FLAG_REQUIRE_ACKED != 0 && e.slock.state == STATE_LEADER && a.lock != nil {
+		switch a.CommandType {
+		case protocol.COMMAND_LOCK:
+			_ = e.ackdb.ProcessLeaderPushLock(0, a)
+		case protocol.COMMAND_UNLOCK:
+			_ = e.ackdb.ProcessLeaderPushUnLock(0, a)
+		}
+	}
+}
+
 func (e *verifEngine) drainAof() {
 	for {
 		e.aofch.queueGlock.Lock()
@@ -167,13 +182,27 @@ func (e *verifEngine) drainAof() {
 		}
 		fmt.Fprintf(e.out, "ev aof %d %d %d %d %d %d %d %d %d %d %d %s %d\n", islock, a.Flag, vn16(a.LockId), vn16(a.LockKey), a.AofFlag,
 			a.CommandTime, a.StartTime, a.ExpriedFlag, a.ExpriedTime, a.Count, a.Rcount, vhex(a.data), ackidx)
+		// what Aof.PushLock does: every record gets its own aof id (LOCK records: the id the acknowledgements of
+		// the harness name; UNLOCK records: ids of their own, never equal to a LOCK record's) ...
 		if ackidx >= 0 {
-			// what Aof.PushLock -> ReplicationManager.PushLock does for a record carrying a lock: the real
-			// ReplicationAckDB registers it (sets lock.ackCount) or fails it at once
 			a.AofIndex, a.AofOffset = 1, uint32(ackidx+1)
 			e.ackIds = append(e.ackIds, [3]uint64{1, uint64(ackidx + 1), a.CommandTime})
-			_ = e.ackdb.ProcessLeaderPushLock(0, a)
+			// implementation-side note for the monitors (not compared with the model): the RequestId the record's
+			// lock carries when its registration is attempted
+			rq := uint64(0)
+			if a.lock.command != nil {
+				rq = vn16(a.lock.command.RequestId)
+			}
+			fmt.Fprintf(e.out, "ev note reg %d %d\n", ackidx, rq)
+		} else {
+			e.unlockSeq++
+			a.AofIndex, a.AofOffset = 2, e.unlockSeq
 		}
+		// ... and is handed to ReplicationManager.PushLock: a LOCK record carrying a lock is registered by the real
+		// ReplicationAckDB (sets lock.ackCount) or failed at once; an UNLOCK record carrying a lock drops the
+		// registration of the lock's request and runs DoAckLock(lock, false).  Replies, further records and wake-up
+		// passes of the nested DoAckLock are observed in this same action (the loop pulls the new records too).
+		e.pushLockAckPart(a)
 	}
 }
 
@@ -593,6 +622,11 @@ func VerifEngineRun(in io.Reader, out io.Writer) {
 			}
 			if !e.stopped {
 				e.drainAof()
+				if !e.recycle {
+					// records freed by a nested DoAckLock of the drain
+					for e.db.freeLocks[0].PopRight() != nil {
+					}
+				}
 				e.snapshot()
 			}
 		}
